@@ -90,7 +90,7 @@ func zzDrawInner() zzInnerResp {
 	k := verifrt.Choose("ctype-etag", 3)
 	b.ctype = []string{"", "text/plain", "text/plain"}[k]
 	b.clen = verifrt.Choose("clen", 3)
-	b.cenc = []string{"", "gzip", "br", "zstd", "deflate", "identity"}[verifrt.Choose("cenc", 6)]
+	b.cenc = []string{"", "gzip", "br", "zstd", "deflate", "identity", "GZIP", "x-gzip", "deflate, br"}[verifrt.Choose("cenc", 9)]
 	b.etag = k == 2
 	b.explicit = verifrt.Bool("explicit")
 	b.status = 200
